@@ -10,6 +10,8 @@ def arg_parser() -> argparse.ArgumentParser:
     parser = argparse.ArgumentParser(
         description="""eg: fakesnow script.py OR fakesnow -m pytest""",
         formatter_class=argparse.ArgumentDefaultsHelpFormatter,
+        # abbreviations (eg: --mod) aren't recognised by split() below
+        allow_abbrev=False,
     )
     parser.add_argument(
         "-d",
@@ -34,8 +36,12 @@ def split(args: Sequence[str]) -> tuple[Sequence[str], Sequence[str]]:
         if a in ["-m", "--module"]:
             i = min(i + 1, len(args) - 1)
             break
+        elif a.startswith("--module=") or (a.startswith("-m") and not a.startswith("--")):
+            # module name attached to the flag, eg: --module=pytest or -mpytest
+            break
         elif a.startswith("-"):
-            in_flag = True
+            # only a bare -d/--db_path consumes the next arg, eg: not --db_path=x or -dx
+            in_flag = a in ["-d", "--db_path"]
         elif not in_flag:
             break
         else:
